@@ -223,18 +223,9 @@ func widthRule(c *core.Ctx, rel, typ, meth string) {
 	var puts []put16
 	if mk != nil {
 		for _, pc := range put {
-			off := int64(-1)
-			if pc.Call.Args[1] == ssa.Value(mk) {
-				off = 0
-			} else if sl, ok := pc.Call.Args[1].(*ssa.Slice); ok && sl.X == ssa.Value(mk) {
-				off = 0
-				if sl.Low != nil {
-					if k, isK := constInt(sl.Low); isK {
-						off = k
-					} else {
-						off = -1
-					}
-				}
+			off, ok := sliceOffsetIn(pc.Call.Args[1], mk)
+			if !ok {
+				off = -1
 			}
 			puts = append(puts, put16{off, pc.Call.Args[2]})
 		}
@@ -321,19 +312,7 @@ func widthRule(c *core.Ctx, rel, typ, meth string) {
 			}
 			return "?"
 		}
-		offIn := func(v ssa.Value) (int64, bool) {
-			if v == ssa.Value(mk) {
-				return 0, true
-			}
-			sl, ok := v.(*ssa.Slice)
-			if !ok || sl.X != ssa.Value(mk) {
-				return 0, false
-			}
-			if sl.Low == nil {
-				return 0, true
-			}
-			return constInt(sl.Low)
-		}
+		offIn := func(v ssa.Value) (int64, bool) { return sliceOffsetIn(v, mk) }
 		got := map[int64]string{}
 		var lp []string
 		for _, pc := range puts {
@@ -1468,4 +1447,27 @@ func tpUdhiRule(c *core.Ctx, fn *ssa.Function) {
 		problems = append(problems, "no path answers 0 for a missing option")
 	}
 	c.Decide(len(problems) == 0, "C16-ACCESSOR", key, pos, fmt.Sprintf("%d paths: value[0] of the TAG_TP_udhi entry, 0 exactly where absent or empty", len(ps)), strings.Join(dedup(problems), "; "))
+}
+
+// sliceOffsetIn: v is base, or a slice of a slice ... of base with constant lower bounds; the offset of v[0] in base.
+func sliceOffsetIn(v ssa.Value, base ssa.Value) (int64, bool) {
+	off := int64(0)
+	for i := 0; i < 6; i++ {
+		if v == base {
+			return off, true
+		}
+		sl, ok := v.(*ssa.Slice)
+		if !ok {
+			return 0, false
+		}
+		if sl.Low != nil {
+			k, isK := constInt(sl.Low)
+			if !isK {
+				return 0, false
+			}
+			off += k
+		}
+		v = sl.X
+	}
+	return 0, false
 }
